@@ -597,6 +597,17 @@ func genSortLarge(r *rng, id string, cnt counters, emit func(line, out string)) 
 		if why := checkSALinear(t, sa); why != "" {
 			e.find("C09", "Sort result is not the suffix array", "Sort", fmt.Sprintf("family=%d n=%d seedtext=%x…: %s", fam, n, t[:min(24, n)], why))
 		}
+		// the first script of every shard also hands text and result to the model, whose linear
+		// checker is Lean-verified (checkSALin_iff): certification of a large input by a theorem,
+		// and a tie between the Go checker used for all the others and the verified one
+		if strings.HasSuffix(id, ".0") && n <= 130000 {
+			is := make([]int, n)
+			for i, v := range sa {
+				is[i] = int(v)
+			}
+			emit("checksalin "+hx(t)+" "+joinInts(is), "true")
+			cnt.inc("s.sort.large.leanchecked")
+		}
 		if lowRep {
 			lcp := make([]int32, n)
 			suffix.LCP(t, sa, nil, lcp)
